@@ -184,6 +184,11 @@ def plan(chk):
     return specs
 
 
+def _dispatch(spec):
+    from .. import longrun
+    return longrun.long_case(spec) if spec.get("case") == "long" else dispatch(spec)
+
+
 def main():
     chk = core.Check("C16")
     core.build("release")
@@ -192,7 +197,9 @@ def main():
     specs = plan(chk)
     for sp in specs:
         sp["work"] = chk.workdir
-    for res in core.parallel(dispatch, specs):
+    from ..chain import COIN_NAMES
+    specs.insert(0, dict(case="long", callback="opreturn", coin=COIN_NAMES[(chk.seed + 4) % 8], seed=chk.seed, n=0, blocks=(140000 if chk.thorough else 70000), verify=False, work=chk.workdir))
+    for res in core.parallel(_dispatch, specs):
         chk.absorb(res)
     chk.finish(RULE, floor={"runs": 40, "lines_expected": 2000, "pinned_outputs": 2000, "scripts:release": 10000},
                assumptions=["OP_RETURN scripts that are not 'OP_RETURN + exactly one push' are unconstrained as to what is printed",
@@ -201,4 +208,5 @@ def main():
 
 
 def replay(spec):
-    core.replay_case("C16", {"chain": case, "eval": eval_unit, "unit": sc.unit_case}, spec)
+    from .. import longrun
+    core.replay_case("C16", {"chain": case, "eval": eval_unit, "unit": sc.unit_case, "long": longrun.long_case}, spec)
